@@ -225,6 +225,8 @@ GROUP = dict(
                   dict(spec="MCController.tla", cfg="MCController_stall.cfg", expect=["CProgress", "CStopWindow"]),
                   # recalc without the .abs() in its curve-needed test: no curve after a sign-encoded zone
                   dict(spec="MCController.tla", cfg="MCController_noabs.cfg", expect=["CPosted", "CNoPanic"]),
+                  # F-C03-4 (repaired): recalc before the repair (no catch-up of idx) overspeeds / trips the code's assert
+                  dict(spec="MCController.tla", cfg="MCController_hiddentarget.cfg", expect=["CPosted", "CNoPanic"]),
                   dict(cfg="MCBrakingCurve_underflow.cfg", expect=["NoUnderflow"])],
     # ... and every monitor of the trace spec must fail at exactly the record that was corrupted
     corrupt=CORRUPT, selftest_cases=12,
@@ -246,7 +248,8 @@ _NOTE = ("Trusted: TLC, the serde projection of TrainState / PathTpc / BrakingPo
          "by StopWindow on the state it returns). Bounded: random runs at dt = 1 s "
          "outside the two excluded input classes; BrakingCurve model exhaustive only up to its bounds (<= 5 zones), Controller model up to <= 4 zones with ample traction "
          "power (the power-limit branch of solve_required_pwr is not modelled), constant resistance per run. Known: F-C03-1, "
-         "F-C03-2 (materialised inputs replayed on every run); F-C03-3 (index underflow of recalc, found by TLC) is repaired.")
+         "F-C03-2 (materialised inputs replayed on every run); F-C03-4 (hidden target after an abandoned curve, predicted by Controller.tla) "
+         "and F-C03-3 (index underflow of recalc, found by TLC) is repaired.")
 MANIFEST = {
     "C03": dict(engine="Control", design_ref="3 (C03)",
                 technique="TLA+ spec + TLC model checking of the braking-table design model + spec->impl replay of its profiles + "
